@@ -173,6 +173,9 @@ pub struct LiveSt {
     /// per port, while it is faulty: was the announce receipt timer armed when the fault began,
     /// and has it expired since (history class of a recovery; part of the state key)
     fault: Vec<Option<(bool, bool)>>,
+    /// per port: it left a peer-delay fault for LISTENING without a receipt timer and none has
+    /// been armed since; the history class of that fault (part of the state key)
+    unrescued: Vec<Option<&'static str>>,
 }
 
 fn needs(state: PS) -> Vec<(Timer, &'static str)> {
@@ -205,7 +208,7 @@ impl Monitor for LiveMon {
     }
 
     fn key(&self, st: &LiveSt) -> String {
-        format!("{:?}", st.fault)
+        format!("{:?}{:?}", st.fault, st.unrescued)
     }
 
     fn post(&self, st: &mut LiveSt, run: &mut Run<'_>, s: &Step, report: Option<&mut Vec<Violation>>) {
@@ -224,6 +227,19 @@ impl Monitor for LiveMon {
             }
             if b && !a {
                 leaving[p] = st.fault[p].take();
+            }
+        }
+        st.unrescued.resize(run.n_ports(), None);
+        for p in 0..run.n_ports() {
+            if run.hosts[p].armed[Timer::Receipt as usize] || !matches!(s.after[p], PS::Listening) {
+                st.unrescued[p] = None;
+            }
+            if let (Some(f), PS::Listening, false) = (leaving[p], s.after[p], run.hosts[p].armed[Timer::Receipt as usize]) {
+                st.unrescued[p] = Some(match f {
+                    (false, false) => "after-recovery-of-a-port-that-had-no-receipt-timer-when-its-fault-began",
+                    (_, true) => "after-recovery-of-a-port-whose-receipt-timer-expired-while-faulty",
+                    (true, false) => "after-recovery-of-a-port-whose-receipt-timer-was-lost",
+                });
             }
         }
         let Some(out) = report else { return };
@@ -275,7 +291,8 @@ impl Monitor for LiveMon {
         }
     }
 
-    fn finale(&self, _st: &mut LiveSt, run: &mut Run<'_>, out: &mut Vec<Violation>) {
+    fn finale(&self, st: &mut LiveSt, run: &mut Run<'_>, out: &mut Vec<Violation>) {
+        let unrescued = st.unrescued.clone();
         let n = run.n_ports();
         let start = run.states();
         let slave_only = run.node.inst.default_ds().slave_only;
@@ -307,8 +324,10 @@ impl Monitor for LiveMon {
                     }
                     let at = state_at(p, t1);
                     if !matches!(at, PS::Master) {
+                        // a port left stranded by a fault recovery is the consequence of that recovery
+                        let cause = unrescued.get(p).copied().flatten().map(|c| format!(":{c}")).unwrap_or_default();
                         out.push(v(
-                            format!("silence:{}-port-never-becomes-master", state_name(start[p]).to_lowercase()),
+                            format!("silence:{}-port-never-becomes-master{}", state_name(start[p]).to_lowercase(), cause),
                             format!("under total silence port {} (initially {}, P2P {}) is {} after {} s instead of Master; armed timers at the start: {:?}", p + 1, state_name(start[p]), run.cfg.node.ports[p].p2p, state_name(at), t1 / SEC, run.hosts[p].armed),
                         ));
                         continue;
